@@ -292,6 +292,49 @@ def claims_assembly(ctx, cell, P, x, Q2, m2c, cvals=None):
     return out
 
 
+def operator_case(poison):
+    """real conv.convolve_operator on a 4-node grid with conv.convolution recorded; returns (operator, errors, records).
+    np.empty in the module hands out `poison()` entries: memory that is not written stays whatever it was."""
+    from yadism.esf import conv
+
+    class BF:
+        def __init__(self, j):
+            self.j = j
+
+    nodes = [0.1, 0.3, 0.6, 1.0]
+    interp = cm.StubInterpolator(nodes, [BF(j) for j in range(4)])
+    rec = {}
+
+    def fake_convolution(fnc, xk, bf):
+        k = nodes.index(xk)
+        rec[(bf.j, k)] = (1.0 + bf.j + 10 * k, 0.01 * (1 + bf.j + 10 * k))
+        return rec[(bf.j, k)]
+
+    class PoisonNP(npshim.NPShim):
+        @staticmethod
+        def empty(shape, dtype=None, **kw):
+            a = np.empty(shape, dtype=object)
+            for idx in np.ndindex(a.shape):
+                a[idx] = poison()
+            return a
+
+    with npshim.patched((conv, "convolution", fake_convolution), (conv, "np", PoisonNP())):
+        op, err = conv.convolve_operator("token-rsl", interp)
+    return op, err, rec
+
+
+def replay_operator(args):
+    vals = iter([1e30 + 7.0 * i for i in range(64)])
+    op, err, rec = operator_case(lambda: next(vals))
+    bad = []
+    for l in range(4):
+        for k in range(4):
+            want = rec.get((l, k), (0.0, 0.0))
+            if float(op[l, k]) != want[0] or float(err[l, k]) != want[1]:
+                bad.append((l, k, float(op[l, k]), want[0]))
+    return (True, f"convolve_operator entries (basis l, node k, got, convolution(fnc, x_k, p_l) or 0 where skipped): {bad[:3]}") if bad else (False, "every entry written")
+
+
 def replay_generic(args):
     """Part A/B claims are identities in uninterpreted symbols; a float replay re-runs the harness with
     concrete stand-ins.  Here: re-run the symbolic claim with the solver's point fixed (domain collapsed)."""
@@ -388,7 +431,7 @@ def replay_assembly(args):
     return (True, f"{cell['name']}: {bad[:3]}") if bad else (False, "assembly formula holds at this point")
 
 
-REPLAYERS = {"conv": replay_conv_numeric, "assembly": replay_assembly}
+REPLAYERS = {"conv": replay_conv_numeric, "assembly": replay_assembly, "operator": replay_operator}
 
 
 def float_pairs_assembly(args):
@@ -474,6 +517,23 @@ def run(chk, only=None):
                     chk.inconclusive_note(f"{cname}: vacuity -- early-exit paths {n_early}, integrating paths {n_full}")
                 else:
                     chk.vacuity["reach_ok"] += 1
+    # ---- convolve_operator (the building block of the scale-variation operators): every entry is a convolution or the documented zero ----
+    if only in (None, "A", "operator"):
+        with Ctx(chk.seed) as ctx:
+            n_ = [0]
+
+            def poison():
+                n_[0] += 1
+                return ctx.var(f"uninitialised!{n_[0]}", None, None)
+
+            op, err, rec = operator_case(poison)
+            for l in range(4):
+                for k in range(4):
+                    want = rec.get((l, k), (0.0, 0.0))
+                    for lab, got, ref in ((f"operator[{l},{k}]", op[l, k], want[0]), (f"operator error[{l},{k}]", err[l, k], want[1])):
+                        chk.prove(f"convolve_operator: {lab} == convolution(fnc, x_{k}, p_{l})" + ("" if (l, k) in rec else " (skipped: exactly 0)"),
+                                  S.lift(got).t == S.lift(ref).t, ctx.facts(), key="conv:operator", replay=lambda m: ("operator", {}),
+                                  what=f"convolve_operator: {lab} is not the convolution (or the documented zero)")
     # ---- Part B ----
     if only in (None, "B"):
         for cell in ASSEMBLY:
